@@ -264,6 +264,21 @@ check(
     "DESIGN.md sections 3 (E3) and 4 C05", engine="E3 fsgate",
 )
 
+check(
+    "C19", "exploration",
+    "With numpy from the offline wheelhouse (the baseline suite skips every numpy test): Hypothesis draws dtype x byte order "
+    "x shape x memory layout (C/F/strided/negative/transposed/broadcast/memmap-backed views) x subclass x nesting and one of "
+    "three configurations - dump/load under all compressors/protocols/targets, load with every mmap_mode, Parallel with "
+    "loky/multiprocessing and max_nbytes thresholds around the array size.  Oracle: dtype/shape/order/element bytes identical "
+    "(modulo the documented native-byte-order conversion), memmaps are aligned views whose file bytes are the array's bytes, "
+    "workers see the same values.",
+    "numpy 2.5 only; sizes up to ~64 Ki elements; subclasses and below-threshold arrays travel through numpy's own pickling "
+    "(byte order then not judged); legacy multi-file format not generated; aliasing of one array referenced twice is recorded "
+    "but not judged.",
+    "Hypothesis generated arrays/configurations; round-trip and differential (parent vs worker, file bytes vs array bytes) oracles",
+    "DESIGN.md section 4 C19", engine="E2 real backends",
+)
+
 NOT_YET = "check not built yet in this session (work in progress; see DESIGN.md section 4 for the planned generator and oracle)"
 
 
